@@ -151,7 +151,12 @@ func GenLayout(allowComments bool) *rapid.Generator[Layout] {
 func GenPresentation() *rapid.Generator[Presentation] {
 	return rapid.Custom(func(t *rapid.T) Presentation {
 		if rapid.Bool().Draw(t, "deflate") {
-			return Presentation{Deflate: true, Level: rapid.IntRange(-2, 9).Draw(t, "level")}
+			p := Presentation{Deflate: true, Level: rapid.IntRange(-2, 9).Draw(t, "level")}
+			if rapid.IntRange(0, 3).Draw(t, "oddDeflate") == 0 {
+				// legal encodings no compressor emits: they begin like text (" <", "<", "$", "4", "D", "L", ",")
+				p.Style = rapid.SampledFrom([]string{"stored-ws", "dyn-prefix", "dyn-prefix", "stored-tail"}).Draw(t, "deflateStyle")
+			}
+			return p
 		}
 		return Presentation{}
 	})
